@@ -50,6 +50,7 @@ type PeerCfg struct {
 	DialTarget bool `json:"dial_target,omitempty"` // connections dialled by the DUT to this address end at this scripted peer
 	Shadow     bool `json:"shadow,omitempty"`      // second scripted endpoint of a neighbour that is already configured (C24)
 	ManualOpen bool `json:"manual_open,omitempty"` // the scripted peer does not answer OPEN by itself
+	LocalAS    uint32 `json:"local_as,omitempty"`  // local AS of this session on the DUT if it differs from the DUT's (C06 only: several local ASNs in one VRF)
 }
 
 func (c PeerCfg) IBGP(local uint32) bool { return c.AS == local }
